@@ -334,22 +334,24 @@ func (rf *rollingFile) each(handler func(string) bool,
 	if start.Equal(stop) {
 		return false
 	}
-	offset := time.Duration(24 * time.Hour)
+	// Step by calendar days, not by 24 hours: a day of 23 hours (daylight saving)
+	// would be jumped over by a window that starts late in the evening before
+	days := 1
 	if stop.Before(start) {
-		offset *= -1
+		days = -1
 	}
 	for {
 		path := rf.getPath(start)
 		if handler(path) {
 			return true
 		}
-		if offset > 0 && start.After(stop) {
+		if days > 0 && start.After(stop) {
 			break
 		}
-		if offset < 0 && start.Before(stop) {
+		if days < 0 && start.Before(stop) {
 			break
 		}
-		start = start.Add(offset)
+		start = start.AddDate(0, 0, days)
 	}
 	return false
 }
